@@ -41,6 +41,9 @@ TARGETS['T9 n8 x1 cap4 shared parameters, batch m=2,1,4'] = {'scenario': 'batch'
     {'m': 2, 'cap': 4, 'values': ['5', '6'], 'rng': 'const', 'share_params': True, 'label': 'member 0', 'name_idx': 4},
     {'m': 1, 'cap': 4, 'values': ['7'], 'seeded': True, 'rng': 'const', 'share_params': True, 'label': 'member 1', 'name_idx': 5},
     {'m': 4, 'cap': 4, 'values': ['8', '9', '10', '11'], 'rng': 'const', 'share_params': True, 'label': 'member 2', 'name_idx': 6}], 'actions': ACTS}
+for _k, _t in TARGETS.items():
+    if _t['scenario'] == 'batch':
+        _t['repeat_prove'] = True
 HISTORY_ONLY = {
     'H1 gens n8 cap4 x6': {'scenario': 'gens', 'n': 8, 'cap': 4, 'x': 6},
     'H2 altered proof refused': {'scenario': 'batch', 'n': 8, 'x': 1, 'members': [{'m': 1, 'cap': 1, 'seeded': True, 'values': ['31'], 'rng': 'const', 'name_idx': 7,
@@ -199,6 +202,26 @@ def walk(ctx, S, P, a, b, path, cfg, key=None):
 FRESH = {}
 
 
+def repeats(ctx, S, run, steps, case):
+    """the same objects, transcript and RNG stream once more inside one call sequence: same proof (same canonical term, else valid-eq)"""
+    P = None
+    for si, st in enumerate(steps):
+        for pi, pr in enumerate((st['out'].get('prove') or []) if isinstance(st['out'], dict) else []):
+            if not isinstance(pr, dict) or 'repeat' not in pr or 'proof' not in pr:
+                continue
+            rp = pr['repeat']
+            if not ctx.expect(isinstance(rp, dict) and 'pieces' in rp, 'C18:repeat-differs', '%s step %d member %d: proving again with the same objects and stream returned %s' % (case['name'], si, pi, str(rp)[:80]), case['cfg'], 'history_dependent'):
+                continue
+            if rp['pieces'] == pr['proof']['pieces']:
+                ctx.D.record('syntactically-identical', 'repeated prove', 'unsat', 0.0, 'unsat')
+                continue
+            if P is None:
+                P = Pair(run.core, run.core)
+                S.T = P.T
+            walk(ctx, S, P, pr['proof']['pieces'], rp['pieces'], [case['name'], 'step %d' % si, 'prove %d repeated' % pi], case['cfg'], 'pieces')
+
+
+
 def analyse(ctx, case, run, S):
     cfg = case['cfg']
     fresh = FRESH[case['target']]
@@ -217,6 +240,7 @@ def analyse(ctx, case, run, S):
             Ph = Pair(FRESH[hn]['core'], run.core)
             S.T = Ph.T
             walk(ctx, S, Ph, FRESH[hn]['out']['steps'][0]['out'], steps[hi]['out'], [case['name'], 'history step %d (%s)' % (hi, hn)], cfg)
+    repeats(ctx, S, run, steps, case)
     if len(ctx.case_samples) < 1:
         ctx.case_samples.append({'scenario': cfg})
 
@@ -276,6 +300,10 @@ def concrete_companions(ctx):
                 ctx.inconclusive.append('replay crate crashed on %s' % case['name'])
                 continue
             ref = strip(fresh[case['target']]['steps'][0]['out'])
+            for st_ in o['steps']:
+                for pr in ((st_['out'].get('prove') or []) if isinstance(st_['out'], dict) else []):
+                    if isinstance(pr, dict) and 'repeat' in pr and 'proof' in pr:
+                        ctx.expect(pr['repeat'] == pr['proof'], 'C18:repeat-differs', '%s (real crates): proving again with the same objects, transcript and RNG stream gives other bytes' % case['name'], case['cfg'], 'history_dependent', {'replay_priority': 1})
             for at in case['at']:
                 n += 1
                 ctx.expect(strip(o['steps'][at]['out']) == ref, 'C18:history-dependent', '%s (real crates): the bytes of step %d differ from the same call in a fresh process' % (case['name'], at),
